@@ -59,7 +59,7 @@ CHECKS = {
    technique="bounded-exhaustive differential enumeration across representations",
    ref="5/C11"),
  "C12": dict(
-   text="Four exhaustive dimensions: (1) all iteration orders of every hooked optimiser map per rule x switch set - printed tree must be unique; (2) explicit-state search over all document sequences of length 4 on one shared rule - one reachable observable state, verdicts equal a fresh rule's; (3) shuttle DFS over ALL interleavings of matches() from 2-3 threads sharing Arc<Rule> at Document::find granularity, deviation-bounded DFS for 4-16 threads; (4) digests across three processes with different environment.",
+   text="Four exhaustive dimensions: (1) all iteration orders of every hooked optimiser map per rule x switch set - printed tree must be unique; (2) explicit-state search over all document sequences of length 4 on one shared rule - one reachable observable state, verdicts equal a fresh rule's; (3) shuttle DFS over ALL interleavings of matches() from 2-3 threads sharing Arc<Rule> at Document::find granularity, deviation-bounded DFS for 4-16 threads; (4) per-rule digests across child processes that handle the rules in different orders and environments, and every ordered pair of a state-sensitive rule slice in its own fresh process.",
    note="Callback granularity is justified by a source scan re-run on every check (no shared mutable state in the engine); free-running 16-thread run and process comparison are samples, labelled so.",
    technique="explicit-state search over histories + exhaustive controlled-scheduler (shuttle DFS) exploration of interleavings + hash-order choice exploration",
    ref="5/C12"),
